@@ -24,8 +24,17 @@ class C01(InterpProp):
             'had ≥2 enabled candidates competing (priority, inner-first or eventless pre-emption decided)')
 
     def knobs(self, rnd, tier):
-        return gen.Knobs(avoid_nondet=False, trans_per_owner=rnd.choice([1.5, 2.5, 4.0]), p_guard=0.6,
-                         p_eventless=rnd.choice([0.1, 0.25]), max_states=rnd.choice([8, 14, 20]))
+        kn = gen.Knobs(avoid_nondet=False, trans_per_owner=rnd.choice([1.5, 2.5, 4.0]), p_guard=0.6,
+                       p_eventless=rnd.choice([0.1, 0.25]), max_states=rnd.choice([8, 14, 20]))
+        c = rnd.random()
+        if c < 0.25:
+            # priorities with several digits and several negative ones (their order is numeric)
+            kn.prio_pool = [-12, -10, -2, -1, 0, 2, 9, 10, 11, 100]
+        elif c < 0.35:
+            # more than ten levels of nesting (depths with two digits)
+            kn.chain = rnd.choice([8, 9, 10, 11])
+            kn.p_guard = 0.3
+        return kn
 
     def check_exec(self, info, res):
         r, gh, sc, trans = info['r'], info['ghost'], info['sc'], info['trans']
@@ -37,6 +46,20 @@ class C01(InterpProp):
             return
         eff = r['eff']
         gt = oracles.guard_table(eff)
+        # "whose guard holds": a guard that reads context variables and event parameters only has the value those
+        # have (all guards of a step are evaluated before any of its code runs)
+        if info['slot0'] is not None:
+            for e in eff:
+                if e[0] == 'guard' and e[3] is not None:
+                    want = oracles.pure_eval(trans[e[1]].guard, info['slot0']['ctx'], e[2])
+                    if want is not None and want != e[3]:
+                        res.violations.append('step %d: guard %r of transition %d was evaluated %s; with %s%s it is %s'
+                                              % (info['k'], trans[e[1]].guard, e[1], e[3],
+                                                 [kv for kv in info['slot0']['ctx'] if kv[0] in trans[e[1]].guard],
+                                                 '' if e[2] is None else ' and event %s' % (e[2],), want))
+                        return
+                    if want is not None:
+                        res.features.add('guard-recomputed')
         cfg = set(info['cfg0'])
         pending = gh.next(info['clock'])
         pend_name = pending['ev']['ev'] if pending else None
